@@ -494,6 +494,12 @@ var emitPool = [][]string{
 	{"one line\n"}, {"par", "tial"}, {"a\nb", "\nc"}, {"x\n", "\n", "y"}, {"", "z\n"}, {"no newline"}, {"\n\n"}, {"l1\nl2\nl3\n"}, {"a", "b", "c\n", "d"},
 }
 
+// fancyName joins two halves of a file name with characters that file systems accept and that URL escaping,
+// label syntax and shells treat specially.
+func fancyName(t *rapid.T, a, b string) string {
+	return a + rapid.SampledFrom([]string{"+", " ", "%2B", "é", "&=", ",", "~", "+", "%", "$", "++", " + "}).Draw(t, "namesep") + b
+}
+
 // GenModel draws a project.
 func GenModel(t *rapid.T, maxTargets int, emit bool) *Model {
 	m := &Model{Files: map[string]string{}, Comments: map[string]int{}, Blanks: map[string]int{}}
@@ -508,6 +514,7 @@ func GenModel(t *rapid.T, maxTargets int, emit bool) *Model {
 		m.Helpers = append(m.Helpers, hp)
 	}
 	nt := rapid.IntRange(2, maxTargets).Draw(t, "ntargets")
+	fancy := rapid.IntRange(0, 3).Draw(t, "fancynames") == 3 // file and directory names with special characters
 	hasDefault := map[int]bool{}
 	for id := 0; id < nt; id++ {
 		tg := Target{ID: id, Pkg: rapid.IntRange(0, np-1).Draw(t, "pkg")}
@@ -539,6 +546,9 @@ func GenModel(t *rapid.T, maxTargets int, emit bool) *Model {
 		ns := rapid.SampledFrom([]int{1, 0, 2, 1}).Draw(t, "nsrc")
 		for j := 0; j < ns; j++ {
 			name := fmt.Sprintf("s%d_%d.txt", id, j)
+			if fancy {
+				name = fancyName(t, fmt.Sprintf("s%d", id), fmt.Sprintf("%d.txt", j))
+			}
 			if rapid.IntRange(0, 7).Draw(t, "srcnamedliketarget") == 7 {
 				// a source file that has the name of a target (a script "build" next to the target "build")
 				name = fmt.Sprintf("t%d", rapid.IntRange(0, nt-1).Draw(t, "liketarget"))
@@ -569,6 +579,9 @@ func GenModel(t *rapid.T, maxTargets int, emit bool) *Model {
 		}
 		if rapid.IntRange(0, 3).Draw(t, "srcdir") == 3 {
 			tg.SrcDir = fmt.Sprintf("d%d", id)
+			if fancy {
+				tg.SrcDir = fancyName(t, "d", fmt.Sprint(id))
+			}
 			nf := rapid.IntRange(1, 3).Draw(t, "ndirfiles")
 			for j := 0; j < nf; j++ {
 				m.Files[m.Rel(tg.Pkg, fmt.Sprintf("%s/f%d.txt", tg.SrcDir, j))] = fmt.Sprintf("dir file %d of t%d\n", j, id)
